@@ -360,6 +360,7 @@ def run(ctx: Ctx):
     _categorical_tlog_prob_table(ctx)
     _expand_copies_each_parameter_from_itself(ctx)
     _chain_carry_over_uses_the_per_chain_decision(ctx)
+    _chain_average_table(ctx)
     _callback_results_not_mutated(ctx)
     _unbiased_defaults_and_exact_tables(ctx)
     plumbing(ctx, "S6")
@@ -762,6 +763,70 @@ def _chain_carry_over_uses_the_per_chain_decision(ctx: Ctx):
            (f"`{u(bad[0])[:90]}` reads `{bad[1].id}` after it was widened by trailing axes for the samples' event dimensions: the carried ratio gains "
             f"those axes, and from the next step on the decision has the wrong shape (categorical proposals: shape error, or element-wise "
             f"acceptance)") if bad else "", rel, bad[0].lineno if bad else f.line)
+
+
+def _chain_average_table(ctx: Ctx):
+    """S18 by value: with the proposal equal to the target every proposal is accepted and the Metropolis-Hastings estimate is the plain
+    average of f over the draws after the burn-in. `IndependentMetropolisHastingsEstimator.__call__` is interpreted over exact values
+    (sa/interp.py + sa/teval.py) with scripted leaves - draw n is the constant n + 1, both log-densities are 0, the uniform draws have
+    logarithm -1, f(b) = 10 b - for (samples, burn-in) = (1, 0), (2, 0), (3, 1), (4, 2), (4, 0) with a start handed in: the result is
+    10 * mean(burn-in + 1 .. samples). Skipped when outside the interpreted fragment."""
+    import numpy as np
+    from fractions import Fraction as Fr
+    from sa.interp import Interp
+    from sa.inteval import NotEvaluable
+    from sa.teval import frac_array
+    col, pkg = ctx.col, ctx.pkg
+    f = pkg.func("_mc::IndependentMetropolisHastingsEstimator.__call__")
+    rel = f.module.relname
+    B = 2
+    bad, rows = None, 0
+    try:
+        for mc, burn in ((2, 0), (3, 1), (4, 2), (4, 0), (1, 0)):
+            state = {"n": 0}
+            holder = {}
+
+            def leaf(x, env):
+                it_ = holder["it"]
+                if isinstance(x, ast.Call):
+                    cn = call_name(x)
+                    if cn == "self.proposal.sample":
+                        state["n"] += 1
+                        return frac_array([[state["n"]] * B])
+                    if cn in ("self.density.log_prob", "self.proposal.log_prob"):
+                        a_ = np.asarray(it_.eval(x.args[0], env), dtype=object)
+                        return frac_array(np.zeros(a_.shape, dtype=int).tolist())
+                    if cn == "self.func":
+                        return np.asarray(it_.eval(x.args[0], env), dtype=object) * Fr(10)
+                    if isinstance(x.func, ast.Attribute) and x.func.attr == "log" and isinstance(x.func.value, ast.Call) and call_name(x.func.value) == "torch.rand":
+                        return frac_array([[-1] * B for _ in range(mc)])
+                if isinstance(x, ast.Attribute) and x.attr == "device":
+                    return "<device>"
+                if isinstance(x, ast.Attribute) and u(x) == "self.proposal.batch_shape":
+                    return (B,)
+                return None
+            it = Interp(leaf=leaf, tensors=True)
+            holder["it"] = it
+            env = {"self.initial_sample": frac_array([[0] * B]), "self.mc_samples": mc, "self.burn_in": burn, "self.is_log": False}
+            try:
+                kind, got = it.run(f.node, env)
+            except TypeError as e_:  # (arithmetic on a value that was never set: nothing was kept)
+                kind, got = "raise", f"TypeError ({str(e_)[:60]})"
+            except NotEvaluable:
+                if rows == 0:
+                    raise  # (the first row decides whether the function is inside the fragment at all)
+                continue
+            rows += 1
+            want = Fr(10) * sum(range(burn + 1, mc + 1)) / (mc - burn)
+            ok = kind == "return" and hasattr(got, "shape") and [Fr(v_) for v_ in np.asarray(got, dtype=object).reshape(-1).tolist()] == [want] * B
+            if not ok and bad is None:
+                bad = (mc, burn, [str(v_) for v_ in np.asarray(got, dtype=object).reshape(-1).tolist()] if kind == "return" and hasattr(got, "shape") else f"{kind} {got}", str(want))
+    except (NotEvaluable, TypeError, KeyError, IndexError):
+        return
+    col.count("chain_average_table_rows", rows)
+    col.ob("G12", "S18", f"{rel}::{f.qualname}::chain-average-table", bad is None,
+           (f"{bad[0]} samples with a burn-in of {bad[1]}, every proposal accepted, draw n = n, f(b) = 10 b: the estimate is {bad[2]}; the average of f "
+            f"over the draws after the burn-in is {bad[3]}") if bad else "", rel, f.line, sample=dict(rows=rows))
 
 
 def _categorical_tlog_prob_table(ctx: Ctx):
